@@ -92,14 +92,16 @@ def splitPath (path : Str) : List Str := splitLoop path.length (stripSlash path)
     unescaped text before it. -/
 def findUnescSlow (find : Char) : Nat → Str → Str × Option Nat
   | _, [] => ([], none)
-  | i, [c] => if c = find then ([], some i) else ([c], none)
-  | i, c :: d :: ds =>
+  | i, c :: cs =>
     if c = find then ([], some i)
     else if c = '\\' then
-      let r := findUnescSlow find (i + 2) ds
-      (d :: r.1, r.2)
+      match cs with
+      | [] => (['\\'], none)            -- `i < len-1` is false: the backslash itself is copied
+      | d :: ds =>
+        let r := findUnescSlow find (i + 2) ds
+        (d :: r.1, r.2)
     else
-      let r := findUnescSlow find (i + 1) (d :: ds)
+      let r := findUnescSlow find (i + 1) cs
       (c :: r.1, r.2)
 
 def indexOf (find : Char) : Nat → Str → Option Nat
